@@ -180,7 +180,9 @@ class ConstrainedFrontend(Frontend):
 
         splitted = []
         for i in constraints:
-            splitted.extend(list(i.args) if i.op == "And" else [i])
+            # a conjunction that must not be simplified is kept whole: its conjuncts would lose the annotation
+            keep_whole = any(isinstance(a, SimplificationAvoidanceAnnotation) for a in i.annotations)
+            splitted.extend(list(i.args) if i.op == "And" and not keep_whole else [i])
 
         log.debug("... splitted of size %d", len(splitted))
 
